@@ -17,8 +17,11 @@ TInit == tid \in 1..Len(Traces) /\ l = 1 /\ Init /\ TLCSet(tid, 1)
 Ev(a) == l <= Len(Tr) /\ Tr[l].a = a /\ l' = l + 1 /\ UNCHANGED tid
 E == Tr[l]
 \* obs = sequence of <<i, k, c>> (certificates recognised on the face) ; "x" in a slot = not a stored certificate
-ObsOk == \/ reply' = {} /\ Len(E.obs) = 0
-         \/ reply' # {} /\ Len(E.obs) = 1 /\ E.obs[1] \in reply'
+\* KcRegister!Conforms in the state after the Ask
+ObsOk == LET obs == E.obs IN
+           \/ reply' = {} /\ Len(obs) = 0
+           \/ reply' # {} /\ Len(obs) = 1 /\ obs[1] \in reply'
+           \/ reply' = {} /\ Len(obs) = 1 /\ obs[1] \in ideal'
 TNext == \/ Ev("NewIdentity") /\ NewIdentity(E.i)
          \/ Ev("NewKey") /\ NewKey(E.i, E.k)
          \/ Ev("DelKey") /\ DelKey(E.i, E.k)
